@@ -15,9 +15,12 @@ static const char *go_names[] = {"ctor_lock", "ctor_defer", "ctor_adopt", "ctor_
 enum { CFG_TICKET = 0, CFG_SIMPLE, CFG_GUARDS, CFG_QSGUARD, CFG_N };
 static const char *cfg_names[CFG_N] = {"ticket_spinlock", "simple_spinlock", "unique_lock+shared_lock<SimMutex>", "qs::lock_guard<SimMutex>"};
 
-static int P_aged, P_contended, P_cs, P_guard_ops, P_guard_skipped, P_move_onto_owner, P_swap_both, P_handover, P_is_locked_checked, P_blocked_on_guard, P_adopt;
+static int P_throwing, P_aged, P_contended, P_cs, P_guard_ops, P_guard_skipped, P_move_onto_owner, P_swap_both, P_handover, P_is_locked_checked, P_blocked_on_guard, P_adopt;
 
 struct Slot { bool exists = false; int mutex = -1; bool owns = false; };
+
+static bool throw_armed_t[MAXT]; // per task: the next acquisition by that task throws
+extern "C" int simh_lock_should_throw() { int t = cur_task(); if (throw_armed_t[t]) { throw_armed_t[t] = false; return 1; } return 0; }
 
 struct LockEngine : Engine {
 	int cfg = 0, ltype = 0, nlocks = 1; bool aged = false;
@@ -31,7 +34,7 @@ struct LockEngine : Engine {
 	uint64_t cs_entries = 0;
 
 	LockEngine() {
-		P_aged = probe_id("aged_ticket_lock_counters_near_wraparound"); P_contended = probe_id("lock_contended"); P_cs = probe_id("critical_sections"); P_guard_ops = probe_id("guard_ops");
+		P_throwing = probe_id("mutex_lock_threw_inside_guard"); P_aged = probe_id("aged_ticket_lock_counters_near_wraparound"); P_contended = probe_id("lock_contended"); P_cs = probe_id("critical_sections"); P_guard_ops = probe_id("guard_ops");
 		P_guard_skipped = probe_id("guard_ops_skipped_precondition"); P_move_onto_owner = probe_id("move_assign_onto_owning_guard");
 		P_swap_both = probe_id("swap_two_owning_guards"); P_handover = probe_id("lock_handover_between_tasks");
 		P_is_locked_checked = probe_id("is_locked_checked_by_holder"); P_blocked_on_guard = probe_id("guard_ctor_contended"); P_adopt = probe_id("adopt_lock");
@@ -84,6 +87,7 @@ struct LockEngine : Engine {
 						o.a[0] = rng.below(12);
 						int ty = (int)rng.below(2); // 0: unique slots 0,1 ; 1: shared slots 2,3
 						o.a[1] = ty * 2 + rng.below(2); o.a[2] = ty * 2 + rng.below(2); o.a[3] = rng.below(nm);
+						if ((o.a[0] == GO_CTOR_LOCK || o.a[0] == GO_LOCK) && rng.chance(1, 6)) o.a[3] += 16; // this acquisition fails: the mutex's lock() throws
 					}
 					p.ops.push_back(o);
 				}
@@ -94,6 +98,7 @@ struct LockEngine : Engine {
 	}
 
 	void setup(const Plan &p) override {
+		memset(throw_armed_t, 0, sizeof throw_armed_t);
 		cfg = p.cfg; cs_entries = 0; aged = p.knobs.count("age") != 0;
 		memset(in_cs, 0, sizeof in_cs); memset(holder, 0, sizeof holder); memset(ticketed, 0, sizeof ticketed); memset(acquiring, -1, sizeof acquiring);
 		for (auto &q : tickets) q.clear();
@@ -181,7 +186,8 @@ struct LockEngine : Engine {
 	}
 
 	void guard(int me, const Op &o) {
-		int gop = (int)o.a[0], a = (int)(o.a[1] & 3), b = (int)(o.a[2] & 3), m = (int)(o.a[3] % nlocks);
+		int gop = (int)o.a[0], a = (int)(o.a[1] & 3), b = (int)(o.a[2] & 3), m = (int)((o.a[3] & 15) % nlocks);
+		bool thr = (o.a[3] & 16) != 0 && cfg == CFG_GUARDS;
 		int gt = cfg == CFG_QSGUARD ? GT_QS : (a >= 2 ? GT_SHARED : GT_UNIQUE);
 		if (cfg == CFG_QSGUARD) { a &= 1; b = a; if (gop != GO_CTOR_LOCK && gop != GO_LOCK && gop != GO_UNLOCK && gop != GO_DESTROY) { probe(P_guard_skipped); return; } }
 		else if ((a >= 2) != (b >= 2)) b = a;
@@ -205,6 +211,12 @@ struct LockEngine : Engine {
 		int ret = 0;
 		switch (gop) {
 		case GO_CTOR_LOCK:
+			if (thr) { // constructor throws: no guard object comes into existence, nothing may be held
+				probe(P_throwing); throw_armed_t[me] = true;
+				int rc = sut_guard_op(gt, gop, slots[me][a], nullptr, mtx[m]); throw_armed_t[me] = false;
+				if (rc != -77) violation("guard_state", "locking constructor returned normally although the mutex's lock() threw");
+				break;
+			}
 			if (mtx[m]->owner >= 0 && mtx[m]->owner != me) probe(P_blocked_on_guard);
 			sut_guard_op(gt, gop, slots[me][a], nullptr, mtx[m]); A = {true, m, true}; break;
 		case GO_CTOR_DEFER: sut_guard_op(gt, gop, slots[me][a], nullptr, mtx[m]); A = {true, m, false}; break;
@@ -213,7 +225,15 @@ struct LockEngine : Engine {
 			if (gt == GT_SHARED) mtx[m]->lock_shared(); else mtx[m]->lock();
 			sut_guard_op(gt, gop, slots[me][a], nullptr, mtx[m]); A = {true, m, true}; break;
 		case GO_CTOR_DEFAULT: sut_guard_op(gt, gop, slots[me][a], nullptr, nullptr); A = {true, -1, false}; break;
-		case GO_LOCK: sut_guard_op(gt, gop, slots[me][a], nullptr, nullptr); A.owns = true; break;
+		case GO_LOCK:
+			if (thr) { // lock() of the mutex throws: the guard must still say (and behave as if) it does not own the lock
+				probe(P_throwing); throw_armed_t[me] = true;
+				int rc = sut_guard_op(gt, gop, slots[me][a], nullptr, nullptr); throw_armed_t[me] = false;
+				if (rc != -77) violation("guard_state", "guard.lock() returned normally although the mutex's lock() threw");
+				if (sut_guard_op(gt, GO_IS_LOCKED, slots[me][a], nullptr, nullptr)) violation("guard_state", "guard.lock() failed with an exception but is_locked() is true");
+				break;
+			}
+			sut_guard_op(gt, gop, slots[me][a], nullptr, nullptr); A.owns = true; break;
 		case GO_UNLOCK: sut_guard_op(gt, gop, slots[me][a], nullptr, nullptr); A.owns = false; break;
 		case GO_MOVE_CTOR: sut_guard_op(gt, gop, slots[me][a], slots[me][b], nullptr); A = B; B = {true, -1, false}; break;
 		case GO_MOVE_ASSIGN:
